@@ -190,3 +190,30 @@ package utils
 //@ extern regexp.Compile
 //@   noeffect
 //@   ensures compiled_or_error: r1 == nil ==> r0 != nil
+
+// ---------------------------------------------------------------------------
+// C12 / C04: integer text is read as a decimal 64-bit number (YANG instance data has no hex / octal forms), the typed
+// value carries exactly that number, and it is accepted only if it lies in one of the ranges (if there are any)
+//@ func (*URnges).IsWithinAnyRangeString
+//@   props C12 C04
+//@   requires urngesOK(r)
+//@   internal decimal_text: called(ParseUint) ==> callarg(ParseUint, 0, 0) == value && callarg(ParseUint, 0, 1) == 10 && callarg(ParseUint, 0, 2) == 64
+//@   internal value_is_the_parsed_number: r0 != nil ==> called(ParseUint) && callres(ParseUint, 0, 1) == nil && istype(r0.Value, *sdcpb.TypedValue_UintVal) &&
+//@            dyn(r0.Value, *sdcpb.TypedValue_UintVal) != nil && dyn(r0.Value, *sdcpb.TypedValue_UintVal).UintVal == callres(ParseUint, 0, 0)
+//@   internal accepted_only_within_a_range: r0 != nil && len(r.rnges) > 0 ==>
+//@            exists(i, 0, len(r.rnges), r.rnges[i].min <= callres(ParseUint, 0, 0) && callres(ParseUint, 0, 0) <= r.rnges[i].max)
+//@   internal refused_only_outside_the_ranges: r0 == nil && r1 != nil && called(ParseUint) && callres(ParseUint, 0, 1) == nil ==>
+//@            len(r.rnges) > 0 && forall(i, 0, len(r.rnges), !(r.rnges[i].min <= callres(ParseUint, 0, 0) && callres(ParseUint, 0, 0) <= r.rnges[i].max))
+//@   loop 0 invariant forall(j, 0, $n, !(r.rnges[j].min <= uintValue && uintValue <= r.rnges[j].max))
+
+//@ func (*SRnges).IsWithinAnyRangeString
+//@   props C12 C04
+//@   requires srngesOK(r)
+//@   internal decimal_text: called(ParseInt) ==> callarg(ParseInt, 0, 0) == value && callarg(ParseInt, 0, 1) == 10 && callarg(ParseInt, 0, 2) == 64
+//@   internal value_is_the_parsed_number: r0 != nil ==> called(ParseInt) && callres(ParseInt, 0, 1) == nil && istype(r0.Value, *sdcpb.TypedValue_IntVal) &&
+//@            dyn(r0.Value, *sdcpb.TypedValue_IntVal) != nil && dyn(r0.Value, *sdcpb.TypedValue_IntVal).IntVal == callres(ParseInt, 0, 0)
+//@   internal accepted_only_within_a_range: r0 != nil && len(r.rnges) > 0 ==>
+//@            exists(i, 0, len(r.rnges), r.rnges[i].min <= callres(ParseInt, 0, 0) && callres(ParseInt, 0, 0) <= r.rnges[i].max)
+//@   internal refused_only_outside_the_ranges: r0 == nil && r1 != nil && called(ParseInt) && callres(ParseInt, 0, 1) == nil ==>
+//@            len(r.rnges) > 0 && forall(i, 0, len(r.rnges), !(r.rnges[i].min <= callres(ParseInt, 0, 0) && callres(ParseInt, 0, 0) <= r.rnges[i].max))
+//@   loop 0 invariant forall(j, 0, $n, !(r.rnges[j].min <= intValue && intValue <= r.rnges[j].max))
